@@ -312,6 +312,7 @@ func (c *collector) flush() {
 				}
 				rep["dims"] = dimsString(f.dims)
 				rep["failures_in_group"] = len(fs)
+				rep["sig"] = sig // a replay that reproduces the failure reports it under the same signature
 			}
 			c.m.Violation(sig, "["+dimsString(f.dims)+"] "+f.detail, rep)
 		}
@@ -333,13 +334,18 @@ func clip(s string) string {
 	return s
 }
 
-// replayOther is true when a replay file addressed to another part is being replayed.
+// replayFor tells whether a replay file is being replayed and whether it is addressed to this part.
+// Failures recorded by this monitor name their part; panics recorded by mon.Guard carry only the
+// entry point and the input, they go to the part that owns that entry point.
 func replayFor(m *mon.M, part string) (mine bool, replaying bool) {
-	p, ok := m.ReplayField("part").(string)
-	if !ok {
-		return false, false
+	if p, ok := m.ReplayField("part").(string); ok {
+		return p == part, true
 	}
-	return p == part, true
+	if e, ok := m.ReplayField("entry").(string); ok {
+		jwe := strings.Contains(e, "Encrypt")
+		return (jwe && part == "tamper") || (!jwe && part == "sign"), true
+	}
+	return false, false
 }
 
 // bitsOf lists the bit positions to flip in a field of n bytes: all of them, or (sampled) the first and
